@@ -157,6 +157,81 @@ Proof.
   destruct f as [s w k]. cbn [sg nw nf] in *. f_equal. lia.
 Qed.
 
+(* arrays: the common word holds every shifted element *)
+Lemma fold_max_ge (l : list Z) x : In x l -> x <= fold_right Z.max 0 l.
+Proof. induction l as [|a l IH]; intros H; [destruct H|]. cbn [fold_right]. destruct H as [->|H]; [lia|]. specialize (IH H). lia. Qed.
+Lemma fold_max_nonneg (l : list Z) : 0 <= fold_right Z.max 0 l.
+Proof. induction l as [|a l IH]; cbn [fold_right]; lia. Qed.
+Theorem lshift_expand_arr_in_range f codes n : 0 <= n -> 1 <= nw f -> Forall (in_range f) codes ->
+  Forall (in_range (lshift_fmt ShExpand f codes n)) (map (fun c => c * 2^n) codes).
+Proof.
+  intros Hn Hw Hr. apply Forall_forall. intros z Hz. apply in_map_iff in Hz. destruct Hz as (c & <- & Hc).
+  assert (Pn: 0 < 2^n) by (apply pow2_pos; lia).
+  pose proof (py_bits_bound c) as Hb. pose proof (py_bits_nonneg c) as Hb0.
+  assert (Hm: py_bits c <= fold_right Z.max 0 (map py_bits codes)) by (apply fold_max_ge, in_map, Hc).
+  rewrite Forall_forall in Hr. specialize (Hr c Hc). unfold in_range, cmin, cmax in Hr.
+  unfold lshift_fmt, in_range, cmin, cmax. cbn [sg nw].
+  set (B := fold_right Z.max 0 (map py_bits codes)) in *.
+  set (W := Z.max (nw f) (B + (if sg f then 1 else 0) + n)).
+  destruct (sg f) eqn:Es.
+  - assert (HW: py_bits c + n <= W - 1) by (unfold W; lia).
+    assert (H: 2^(py_bits c + n) <= 2^(W - 1)) by (apply pow2_le; lia). rewrite pow2_split in H by lia. nia.
+  - assert (HW: py_bits c + n <= W) by (unfold W; lia).
+    assert (H: 2^(py_bits c + n) <= 2^W) by (apply pow2_le; lia). rewrite pow2_split in H by lia. nia.
+Qed.
+Theorem lshift_expand_arr_exact f codes n : 0 <= n -> 1 <= nw f -> Forall (in_range f) codes ->
+  exists w, fxp_lshift_arr ShExpand f codes n = Ok (lshift_fmt ShExpand f codes n, w) /\
+    w_codes w = map (fun c => c * 2^n) codes /\ w_ovf w = false /\ w_unf w = false /\ nf (lshift_fmt ShExpand f codes n) = nf f.
+Proof.
+  intros Hn Hw Hr. unfold fxp_lshift_arr.
+  assert (Hmap: map (fun c => lshift_raw f c n) codes = map (fun c => c * 2^n) codes).
+  { apply map_ext_in. intros c Hc. rewrite Forall_forall in Hr. apply lshift_raw_exact; [exact Hn | exact Hw | apply Hr; exact Hc]. }
+  rewrite Hmap. pose proof (lshift_expand_arr_in_range f codes n Hn Hw Hr) as Hin.
+  set (f' := lshift_fmt ShExpand f codes n) in *.
+  assert (Hw': 1 <= nw f') by (unfold f', lshift_fmt; cbn [nw]; lia).
+  destruct (raw_arr_list_store f' Trunc Saturate _ Hw' Hin) as (w & Hs & Hc & Ho & Hu).
+  rewrite Hs. cbn [bind]. exists w. repeat split; try assumption.
+Qed.
+(* the common word is the least one: either the operand's own word, or some element needs every bit of it after the shift *)
+Theorem lshift_expand_arr_word_least f codes n : 0 <= n -> 1 <= nw f -> Forall (in_range f) codes -> Exists (fun c => c <> 0) codes ->
+  let f' := lshift_fmt ShExpand f codes n in
+  nw f <= nw f' /\ (nw f < nw f' -> exists c, In c codes /\ ~ in_range {| sg := sg f; nw := nw f' - 1; nf := nf f |} (c * 2^n)).
+Proof.
+  intros Hn Hw Hr Hnz f'. unfold f', lshift_fmt. cbn [nw]. set (B := fold_right Z.max 0 (map py_bits codes)).
+  split; [lia|]. intros Hlt.
+  assert (Pn: 0 < 2^n) by (apply pow2_pos; lia).
+  assert (HB: nw f < B + (if sg f then 1 else 0) + n) by lia.
+  replace (Z.max (nw f) (B + (if sg f then 1 else 0) + n)) with (B + (if sg f then 1 else 0) + n) by lia.
+  destruct (Z.eq_dec B 0) as [HB0|HBn].
+  { (* every code is 0 or -1; some code is not 0, so it is -1 and the operand is signed *)
+    apply Exists_exists in Hnz. destruct Hnz as (c & Hc & Hcn). exists c. split; [exact Hc|].
+    assert (Hpb: py_bits c <= 0) by (rewrite <- HB0; apply fold_max_ge, in_map, Hc).
+    pose proof (py_bits_bound c) as Hbd. pose proof (py_bits_nonneg c) as Hb0. replace (py_bits c) with 0 in Hbd by lia.
+    change (2^0) with 1 in Hbd. assert (Hm1: c = -1) by lia. subst c.
+    rewrite Forall_forall in Hr. specialize (Hr (-1) Hc). unfold in_range, cmin, cmax in Hr |- *. cbn [sg nw].
+    destruct (sg f); [|lia]. rewrite HB0. replace (0 + 1 + n - 1 - 1) with (n - 1) by lia.
+    destruct (Z.eq_dec n 0) as [->|Hn0]; [lia|]. assert (2^n = 2 * 2^(n - 1)) by (apply pow2_double; lia).
+    assert (0 < 2^(n - 1)) by (apply pow2_pos; lia). lia. }
+  assert (HBpos: 0 < B) by (pose proof (fold_max_nonneg (map py_bits codes)); unfold B in *; lia).
+  assert (Hex: exists c, In c codes /\ py_bits c = B).
+  { unfold B in *. clear - HBpos. induction codes as [|c cs IH]; cbn [map fold_right] in *; [lia|].
+    destruct (Z.max_spec (py_bits c) (fold_right Z.max 0 (map py_bits cs))) as [(Hl & He)|(Hl & He)]; rewrite He in *.
+    - destruct (IH HBpos) as (c' & Hi & Hb). exists c'. split; [right; exact Hi|exact Hb].
+    - exists c. split; [left; reflexivity|reflexivity]. }
+  destruct Hex as (c & Hc & Hb). exists c. split; [exact Hc|].
+  unfold in_range, cmin, cmax. cbn [sg nw]. unfold py_bits in Hb.
+  destruct (0 <=? c) eqn:E.
+  - assert (Hc0: c <> 0) by (intros ->; cbn in Hb; lia). pose proof (bitlen_lower_bound c Hc0) as Hl. rewrite Hb in Hl.
+    rewrite Z.abs_eq in Hl by lia.
+    assert (Hp: 2^(B - 1 + n) = 2^(B - 1) * 2^n) by (apply pow2_split; lia).
+    destruct (sg f); [replace (B + 1 + n - 1 - 1) with (B - 1 + n) by lia | replace (B + 0 + n - 1) with (B - 1 + n) by lia]; nia.
+  - assert (Hc0: - c - 1 <> 0) by (intros H0; rewrite H0 in Hb; cbn in Hb; lia). pose proof (bitlen_lower_bound (- c - 1) Hc0) as Hl.
+    rewrite Hb in Hl. rewrite Z.abs_eq in Hl by lia.
+    assert (Hp: 2^(B - 1 + n) = 2^(B - 1) * 2^n) by (apply pow2_split; lia).
+    rewrite Forall_forall in Hr. specialize (Hr c Hc). unfold in_range, cmin, cmax in Hr.
+    destruct (sg f); [replace (B + 1 + n - 1 - 1) with (B - 1 + n) by lia; nia | lia].
+Qed.
+
 (* << in trunc/keep mode: same format; exact when representable, else the saturated value *)
 Theorem lshift_keep f c n : 0 <= n -> 1 <= nw f -> nw f + n <= 62 -> in_range f c ->
   exists w, fxp_lshift ShKeep f c n = Ok (f, w) /\ w_codes w = [sat f (c * 2^n)] /\
